@@ -191,6 +191,12 @@ def c02_cells(tier="quick"):
                                                                         for t in ("t0", "t1", "t2")])))
         cells.append((f"one_worker3.{tag}", base(4, mk(), workers=W[:1], requirements=[
             {"task": t, "resource": "w0"} for t in ("t0", "t1", "t2")])))
+    # one task on two different cumulative workers (a pool of machines and a pool of operators), alone and with a plain worker
+    for tag, mk in PAIRS[:4]:
+        cells.append((f"two_cumulative.{tag}", base(3, mk(), workers=W[:1], cumulative=[
+            {"name": "cuA", "size": 2}, {"name": "cuB", "size": 3}], requirements=[
+            {"task": "t0", "resource": "cuA"}, {"task": "t0", "resource": "cuB"}, {"task": "t1", "resource": "cuB"},
+            {"task": "t1", "resource": "w0"}])))
     # a selection that lists a cumulative worker next to a plain one
     cells.append(("selection_over_cumulative", base(3, [fx("t0", 2), fx("t1", 2), fx("t2", 2)], workers=W[:1],
                                                     cumulative=[{"name": "cu", "size": 2}],
@@ -266,7 +272,8 @@ def c04_cells(tier="quick"):
     for tag, mk in mixes:
         two = len(mk()) == 2
         H = 6 if two else 8
-        for ivs in ([[2, 4]], [[0, 1], [3, 5]], [[1, 2], [2, 4]]):
+        # (the last list: a long interruption BEFORE a short one - lengths must not be mixed up)
+        for ivs in ([[2, 4]], [[0, 1], [3, 5]], [[1, 2], [2, 4]], [[1, 3], [5, 6]]):
             nm = "_".join(f"{a}-{b}" for a, b in ivs)
             cells.append((f"ResourceUnavailable.{tag}.{nm}", base(H, mk(), workers=W[:1], requirements=on_w0(mk()),
                                                                  constraints=[
@@ -395,7 +402,9 @@ def c09_cells(tier="quick"):
         ctag = "conc" if conc else "nonconc"
         for bnd in ({"initial": 2}, {"initial": 2, "lower": 0}, {"initial": 0, "lower": 0, "upper": 3},
                     {"initial": 3, "final": 2}, {"final": 4}, {"initial": 1, "upper": 2, "lower": 0},
-                    {"initial": 1, "final": 0}, {"final": 0}, {"initial": 0, "final": 0, "lower": -3}):
+                    {"initial": 1, "final": 0}, {"final": 0}, {"initial": 0, "final": 0, "lower": -3},
+                    # no initial level: the first level is an unknown that the bounds must hold too
+                    {"final": 2, "lower": 0}, {"final": 3, "lower": 0, "upper": 3}, {"final": 0, "lower": 0}):
             btag = ",".join(f"{k}{v}" for k, v in bnd.items())
             b = dict({"name": "bf", "concurrent": conc}, **bnd)
             # one unloader + one loader
